@@ -1,7 +1,7 @@
 (* C08 — BDD-encoded automata: load/dump, union, intersection, trimming, conversion keep exact languages; no call
    changes the language of an operand. Value-level pool model. Statements only. *)
 From Coq Require Import List NArith Bool.
-From V Require Import Sem Prod Incl TrimDefs TrimProofs Lang ProductDefs ProductProofs PoolDefs PoolProofs ArityPrefix SharedTable.
+From V Require Import Sem Prod Incl TrimDefs TrimProofs Lang ProductDefs ProductProofs PoolDefs PoolProofs ArityPrefix SharedTable DispatchTable ArityTie.
 
 (* frame property: an operation of the pool changes no handle but its target (operands keep their languages) *)
 Theorem C08_frame : forall p o h, h <> target o -> plookup (pool_step p o) h = plookup p h.
@@ -47,6 +47,12 @@ Theorem C08_shared_isect_refuted : exists A F G t,
   accepts (with_finals F A) t /\ accepts (with_finals G A) t /\ ~ accepts (with_finals (finter F G) A) t.
 Proof. exact shared_isect_finals_refuted. Qed.
 
+(* the layout constants of the model are those found in the sources on this run (generated DispatchTable.v) *)
+Theorem C08_arity_constants_from_source :
+  src_SYMBOL_SIZE = SYMBOL_BITS /\ src_SYMBOL_ARITY_LENGTH = ARITY_BITS /\ src_MAX_ARITY_IS_ALL_ONES = true /\
+  MAX_ARITY = (2 ^ src_SYMBOL_ARITY_LENGTH - 1)%N.
+Proof. exact arity_constants_tied. Qed.
+
 Print Assumptions C08_frame.
 Print Assumptions C08_arity_prefix_injective.
 Print Assumptions C08_arity_prefix_guard_needed.
@@ -60,3 +66,4 @@ Print Assumptions C08_isect_congr.
 Print Assumptions C08_no_useless.
 Print Assumptions C08_shared_union_exact.
 Print Assumptions C08_shared_isect_refuted.
+Print Assumptions C08_arity_constants_from_source.
